@@ -8,7 +8,10 @@ From GL Require Import Base.Bytes Codec.Crc Codec.Journal Codec.JournalSpec Gen.
   Store.Crash Store.CrashBytes Corr.C12Run.
 
 Inductive c04bcase :=
-| KJournal (checksum : bool) (stream : list seg) (kept : list (N * N)).
+| KJournal (checksum : bool) (stream : list seg) (kept : list (N * N))
+(* the real Open of the crash image failed (error text kept on the Go side); in the model recovery of a
+   crash image always succeeds (C04_crash_safe_bytes), so this is a disagreement whatever the bytes are *)
+| KOpenFailed (stream : list seg).
 
 Fixpoint pairs_eqb (a b : list (N * N)) : bool :=
   match a, b with
@@ -24,6 +27,7 @@ Definition run_bcase (c : c04bcase) : bool :=
   match c with
   | KJournal ck stream kept =>
       pairs_eqb (map (fun b => (b_seq b, b_n b)) (recover_journal_bytes ck (segs_bytes stream))) kept
+  | KOpenFailed _ => false
   end.
 
 Definition mismatches_b (l : list c04bcase) : list N := mism_from run_bcase 0 l.
